@@ -350,7 +350,12 @@ def run(ctx):
                        "dial failure, PROXY header, blocklisted covert, transport error path, positive controls with LOG_CLIENT_IP; "
                        "static cases are the regenerated log sites")
     tab = static_part(ctx)
-    ctx.coq_props()
+    ctx.coq_props(props_files=["C17/Props.v", "C17/PropsSites.v"])
+    rc_e, out_e = ctx.coq_make(["C17/Examples.vo"])
+    if rc_e != 0:
+        ctx.broken("examples", "C17/Examples.v (non-vacuity) no longer checks: %s" % out_e[-400:])
+    rc_r, out_r = ctx.coq_make(["C17/Refuted.vo"])
+    ctx.cov["refuted_witness_checks"] = (rc_r == 0)   # false = the open known finding no longer shows in the site table
     if tab is None:
         return
     cases = gen_cases(ctx)
